@@ -3,6 +3,10 @@ inclusion with a shortest counterexample."""
 from collections import deque
 
 
+# refined nonterminals: a word with the refined symbol is also a word with the general one
+REFINES = {"<atom>": "<expr>"}
+
+
 class NFA:
     def __init__(self):
         self.n = 0
@@ -78,6 +82,8 @@ def included(a, a_start, a_end, b, b_start, b_end, limit=400000, skip=None):
                 continue
             A2 = a.closure(targets)
             B2 = b.step(B, sym) if B else frozenset()
+            if B and sym in REFINES:
+                B2 = frozenset(B2 | b.step(B, REFINES[sym]))
             key = (A2, B2)
             if key in seen:
                 continue
